@@ -1,22 +1,27 @@
 #!/bin/bash
-# confirm_seed.sh <worktree> <A|B> [test names for B...]
+# confirm_seed.sh <worktree> <A|B|R> [test names for B...]      (env SD=<seed-dir>, default "seed")
+# A: seed/demo is a cargo project with tests (cargo test); R: a cargo project with a binary (cargo run; exit status
+# decides); B: seed/demo/*.rs are extra test files for crates/tests/tests.
 # Confirms in the scratch worktree: demo passes unpatched; with the patch the suite still has 134 passes and the demo fails.
 set -u
 WT="$1"; KIND="$2"; shift 2
+SD="${SD:-seed}"
 cd "$WT" || exit 2
 export CARGO_NET_OFFLINE=true
 git checkout -q -- . 2>/dev/null
 run_demo() {
   if [ "$KIND" = A ]; then
-    ( cd seed/demo && CARGO_TARGET_DIR="$WT/target/demo" cargo test --offline 2>&1 | grep -E "^test result|panicked|FAILED|failed" | head -8 )
+    ( cd $SD/demo && CARGO_TARGET_DIR="$WT/target/demo-$SD" cargo test --offline 2>&1 | grep -E "^test result: .*[1-9][0-9]* (passed|failed)|panicked|FAILED|failed" | head -8 )
+  elif [ "$KIND" = R ]; then
+    ( cd $SD/demo && CARGO_TARGET_DIR="$WT/target/demo-$SD" timeout 1200 cargo run --release --offline 2>&1 | tail -4; echo "demo exit status: ${PIPESTATUS[0]}" )
   else
-    cp seed/demo/*.rs crates/tests/tests/
+    cp $SD/demo/*.rs crates/tests/tests/
     for t in "$@"; do cargo test -p walrus-tests --test "$t" --offline 2>&1 | grep -E "^test result|FAILED|failed" | head -5; done
-    for f in seed/demo/*.rs; do rm -f "crates/tests/tests/$(basename $f)"; done
+    for f in $SD/demo/*.rs; do rm -f "crates/tests/tests/$(basename $f)"; done
   fi
 }
 echo "--- demo, unpatched"; run_demo "$@"
-git apply seed/patch.diff || { echo "PATCH DOES NOT APPLY"; exit 2; }
+git apply $SD/patch.diff || { echo "PATCH DOES NOT APPLY"; exit 2; }
 echo "--- suite, patched"; cargo nextest run --workspace --no-fail-fast --offline 2>&1 | grep -E "Summary|error(\[|:)" | head -5
 echo "--- parallel build, patched"; cargo build --offline --features parallel 2>&1 | grep -E "^error|Finished" | head -3
 echo "--- demo, patched"; run_demo "$@"
